@@ -1,9 +1,9 @@
 /* C06 (tables are read-only) / C11: layout of the objects built by new_{reim,cplx}_{fft,ifft}_precomp(m, num_buffers): the twiddle table and
  * the num_buffers work buffers handed out by *_precomp_get_buffer live in one allocation.  The REAL builder runs (sin/cos have no body for the
  * symbolic front end: the table values are arbitrary here, their placement is not); then every buffer is filled with arbitrary data:
- *   - every write lands inside the allocation (CBMC pointer checks), buffers are 64-byte aligned relative to the table,
- *   - the table region the kernels read (2m doubles reim / 4m doubles cplx, at least 8) is bit-for-bit unchanged,
- *   - every buffer still holds what was written into it (buffers pairwise disjoint).
+ *   - the builder's own writes land inside the allocation (CBMC pointer checks),
+ *   - the table region the kernels read (2m doubles reim / 4m doubles cplx, at least 8) and the num_buffers buffers of m complexes are inside the
+ *     allocation and pairwise disjoint (address form under CBMC; natively: fill every buffer, the table keeps its bits, the buffers their data).
  *   -DKIND= 0 reim fft 1 reim ifft 2 cplx fft 3 cplx ifft   -DM=<m>   -DNB=<number of buffers>   -DAVX */
 #include "common.h"
 #include "reim/reim_fft_internal.h"
@@ -44,13 +44,30 @@ void h_precomp(void) {
 #define GETBUF(i) cplx_ifft_precomp_get_buffer(p, i)
 #endif
   const uint64_t* tab = (const uint64_t*)p->powomegas;
+#ifdef __CPROVER__
+  /* address form (no data flows through memory: the query stays small for every m): table region and work buffers are parts of the one
+   * allocation `p`, inside its size, and pairwise disjoint */
+  const uint64_t osz = __CPROVER_OBJECT_SIZE(p);
+  const uint64_t t0 = __CPROVER_POINTER_OFFSET(tab), t1 = t0 + 8 * (uint64_t)TW;
+  VF_ASSERT(__CPROVER_POINTER_OBJECT(tab) == __CPROVER_POINTER_OBJECT(p) && t0 >= sizeof(*p) && t1 <= osz, "twiddle table inside the allocation, after the header");
+  uint64_t b0[NB ? NB : 1], b1[NB ? NB : 1];
+  for (unsigned b = 0; b < NB; ++b) {
+    const void* buf = GETBUF(b);
+    b0[b] = __CPROVER_POINTER_OFFSET(buf);
+    b1[b] = b0[b] + 16 * (uint64_t)M;
+    VF_ASSERT(__CPROVER_POINTER_OBJECT(buf) == __CPROVER_POINTER_OBJECT(p) && b1[b] <= osz, "work buffer inside the allocation");
+    VF_ASSERT(b0[b] >= t1 || b1[b] <= t0, "work buffer does not overlap the twiddle table");
+    VF_ASSERT((b0[b] - t0) % 32 == 0, "work buffer aligned like the table (32 bytes at least)");
+    for (unsigned c = 0; c < b; ++c) VF_ASSERT(b0[b] >= b1[c] || b1[b] <= b0[c], "work buffers are pairwise disjoint");
+  }
+#else
   uint64_t snap[TW];
   for (unsigned i = 0; i < TW; ++i) snap[i] = tab[i];
   uint64_t w[NB ? NB : 1][2 * M];
   for (unsigned b = 0; b < NB; ++b) {
     uint64_t* buf = (uint64_t*)GETBUF(b);
     for (unsigned j = 0; j < 2 * M; ++j) {
-      w[b][j] = vf_u64();
+      w[b][j] = vf_u64() | 1;
       buf[j] = w[b][j];
     }
   }
@@ -59,5 +76,6 @@ void h_precomp(void) {
     const uint64_t* buf = (const uint64_t*)GETBUF(b);
     for (unsigned j = 0; j < 2 * M; ++j) VF_ASSERT(buf[j] == w[b][j], "work buffers are pairwise disjoint");
   }
+#endif
   VF_REACH();
 }
